@@ -62,7 +62,7 @@ def audit(modules):
     """returns dict(ok, build_log, forbidden=[...], theorems={name: [axioms]}, bad=[names])"""
     res = dict(ok=True, forbidden=[], theorems={}, bad=[], build_ok=True, log='')
     try:
-        build.build_lean()
+        build.build_lean(full=True)
     except build.BuildError as e:
         res.update(ok=False, build_ok=False, log=e.log)
         return res
